@@ -135,3 +135,56 @@ def conj_terms(test):
             out.extend(conj_terms(v))
         return out
     return [test]
+
+
+# ------------------------------------------------------------------ local copy propagation
+import copy as _copy
+
+
+def alias_env(fnode):
+    """name -> expression for locals assigned exactly once (anywhere) from a pure Name/Attribute chain whose root is a
+    parameter that is itself never re-bound.  Used to see through `shape = value.shape` style aliases."""
+    counts, values = {}, {}
+    pnames = {a.arg for a in fnode.args.posonlyargs + fnode.args.args + fnode.args.kwonlyargs}
+    rebound = set()
+    for n in walk_no_nested(fnode):
+        tg = []
+        if isinstance(n, ast.Assign):
+            tg = [x for t in n.targets for x in flatten_targets(t)]
+        elif isinstance(n, (ast.AugAssign, ast.AnnAssign)):
+            tg = [n.target]
+        elif isinstance(n, (ast.For, ast.AsyncFor)):
+            tg = list(flatten_targets(n.target))
+        elif isinstance(n, ast.comprehension):
+            tg = list(flatten_targets(n.target))
+        for t in tg:
+            if isinstance(t, ast.Name):
+                counts[t.id] = counts.get(t.id, 0) + 1
+                if t.id in pnames:
+                    rebound.add(t.id)
+                if isinstance(n, ast.Assign) and len(n.targets) == 1 and n.targets[0] is t:
+                    values[t.id] = n.value
+    env = {}
+    for name, c in counts.items():
+        if c == 1 and name in values and name not in pnames:
+            v = values[name]
+            ch = attr_chain(v)
+            if ch is not None and ch[0] in pnames and ch[0] not in rebound:
+                env[name] = v
+    return env
+
+
+class _Subst(ast.NodeTransformer):
+    def __init__(self, env):
+        self.env = env
+
+    def visit_Name(self, node):
+        if isinstance(node.ctx, ast.Load) and node.id in self.env:
+            return _copy.deepcopy(self.env[node.id])
+        return node
+
+
+def subst(expr, env):
+    if not env:
+        return expr
+    return ast.fix_missing_locations(_Subst(env).visit(_copy.deepcopy(expr)))
